@@ -1153,3 +1153,199 @@ def producers_of_written_text(mod: Module, fn: ast.AST, methods: dict, is_the_te
 
     add_calls(fn, todo, 0)
     return out
+
+
+# ------------------------------------------------------------------------------------------------ dispatch on the class of the first argument
+def _stdlib_callable(mod: Module, e: ast.AST, module: str, name: str) -> bool:
+    """the expression e denotes `module.name` of the standard library in mod: `from module import name [as x]` then x, or `import module [as m]` then m.name"""
+    for st in ast.walk(mod.tree):
+        if isinstance(st, ast.ImportFrom) and st.module == module and not st.level and isinstance(e, ast.Name):
+            if any(a.name == name and (a.asname or a.name) == e.id for a in st.names):
+                return mod.defs.get(e.id) is None
+        if isinstance(st, ast.Import) and isinstance(e, ast.Attribute) and e.attr == name and isinstance(e.value, ast.Name):
+            if any(a.name == module and (a.asname or a.name) == e.value.id for a in st.names):
+                return True
+    return False
+
+
+def is_type_dispatcher(mod: Module, fn: ast.AST) -> bool:
+    """fn is a generic function that chooses its implementation by the class of its first argument (decorated with functools.singledispatch, and with nothing else:
+    another decorator could wrap the dispatch)"""
+    decs = getattr(fn, "decorator_list", [])
+    return len(decs) == 1 and _stdlib_callable(mod, decs[0], "functools", "singledispatch")
+
+
+def type_registrations(repo: Repo, mods, dmod: Module, disp: ast.AST) -> Optional[list]:
+    """[(module, registered class expression, implementation (module, def), node)] for every implementation registered with the type dispatcher `disp` in the
+    modules `mods`: `@disp.register(T) def g`, `@disp.register def g(x: T)`, `disp.register(T, g)`.  None if a use of `disp.register` / `disp.dispatch` /
+    `disp.registry` is met that this analysis cannot read (what runs for a class is then unknown)."""
+    out: list = []
+    for mod in mods:
+        r = resolve_function(repo, mod, disp.name)  # type: ignore[attr-defined]
+        if r is None or r[1] is not disp:
+            continue
+        local = None
+        for st in ast.walk(mod.tree):
+            if isinstance(st, ast.ImportFrom):
+                for a in st.names:
+                    if a.name == disp.name and (a.asname or a.name) != a.name:  # type: ignore[attr-defined]
+                        local = a.asname
+        names = {disp.name, local} - {None}  # type: ignore[attr-defined]
+        seen: set = set()
+        for n in ast.walk(mod.tree):
+            if isinstance(n, (ast.FunctionDef, ast.AsyncFunctionDef)):
+                for d in n.decorator_list:
+                    reg = d.func if isinstance(d, ast.Call) else d
+                    if not (isinstance(reg, ast.Attribute) and reg.attr == "register" and isinstance(reg.value, ast.Name) and reg.value.id in names):
+                        continue
+                    seen.add(id(reg))
+                    if len(n.decorator_list) != 1:
+                        return None
+                    ps = n.args.posonlyargs + n.args.args
+                    if isinstance(d, ast.Call):
+                        if len(d.args) != 1 or d.keywords:
+                            return None
+                        out.append((mod, d.args[0], (mod, n), d))
+                    elif ps and ps[0].annotation is not None:
+                        out.append((mod, ps[0].annotation, (mod, n), d))
+                    else:
+                        return None
+        for n in ast.walk(mod.tree):
+            if isinstance(n, ast.Attribute) and isinstance(n.value, ast.Name) and n.value.id in names and id(n) not in seen:
+                par = next(iter(mod.parents(n)), None)
+                if n.attr == "register" and isinstance(par, ast.Call) and par.func is n and len(par.args) == 2 and not par.keywords and isinstance(par.args[1], ast.Name):
+                    impl = resolve_function(repo, mod, par.args[1].id)
+                    if impl is None:
+                        return None
+                    out.append((mod, par.args[0], impl, par))
+                elif n.attr in ("register", "registry", "dispatch", "_clear_cache"):
+                    return None
+    return out
+
+
+# ------------------------------------------------------------------------------------------------ what a value is computed from, across private callees
+def module_callee(mod: Module, call: ast.Call) -> Optional[ast.AST]:
+    """the def of mod that a call denotes when that can be read off the source: `f(..)` for a module-level def f; `C.m(..)` for a method m of a class C of
+    the module (a static / class method, or the constructor-like use of one); `<expr>.m(..)` when exactly one class of the module defines a method m
+    and no module-level def has that name (the receiver is then an instance of that class, or the call is not to this module at all)"""
+    fn = call.func
+    if isinstance(fn, ast.Name):
+        d = mod.defs.get(fn.id)
+        return d if isinstance(d, (ast.FunctionDef, ast.AsyncFunctionDef)) else None
+    if isinstance(fn, ast.Attribute):
+        if isinstance(fn.value, ast.Name) and isinstance(mod.defs.get(fn.value.id), ast.ClassDef):
+            d = mod.defs.get("%s.%s" % (fn.value.id, fn.attr))
+            return d if isinstance(d, (ast.FunctionDef, ast.AsyncFunctionDef)) else None
+        owners = [d for q, d in mod.defs.items() if isinstance(d, (ast.FunctionDef, ast.AsyncFunctionDef)) and "." in q and q.rsplit(".", 1)[1] == fn.attr
+                  and isinstance(mod.defs.get(q.rsplit(".", 1)[0]), ast.ClassDef)]
+        if len(owners) == 1 and fn.attr.startswith("_") is False and not hasattr(str, fn.attr) and not hasattr(list, fn.attr) and not hasattr(dict, fn.attr):
+            return owners[0]
+    return None
+
+
+def deep_closure_exprs(mod: Module, fn: ast.AST, e: ast.AST, depth: int = 3) -> list[ast.AST]:
+    """closure_exprs(fn, e), plus - for every call in it of a function of the same module (module_callee) - the expressions that function returns and what
+    they are computed from there, transitively to `depth` calls: the expressions whose values can flow into e, wherever the maintainer has put the computation"""
+    out: list = []
+    seen: set = set()
+
+    def visit(scope: ast.AST, x: ast.AST, d: int) -> None:
+        for v in closure_exprs(scope, x):
+            if id(v) in seen:
+                continue
+            seen.add(id(v))
+            out.append(v)
+            if d <= 0:
+                continue
+            for c in ast.walk(v):
+                if isinstance(c, ast.Call):
+                    callee = module_callee(mod, c)
+                    if callee is not None and callee is not scope:
+                        for r in own_nodes(callee):
+                            if isinstance(r, ast.Return) and r.value is not None:
+                                visit(callee, r.value, d - 1)
+
+    visit(fn, e, depth)
+    return out
+
+
+def string_pieces(mod: Module, fn: ast.AST, e: ast.AST, depth: int = 4) -> list[ast.AST]:
+    """the expressions whose text a string-valued expression e of fn is put together from, as far as the assembly is written in the module: the operands of `+`,
+    both arms of a conditional expression / `or`, the slots of an f-string, the elements joined by `<constant>.join(..)` (of a list / tuple display, or of a
+    local list with everything appended / extended / added to it), the bindings of a local, and - for a call of a function of the module (module_callee) - what
+    its returns are put together from, plus the receiver and the arguments of the call (they are what the callee's parameters stand for); the arguments of a call
+    that constructs a class of the module likewise.  Anything else (a subscript, an attribute, a call of something outside the module - its arguments are NOT
+    pieces: a splitter takes a string apart) is a leaf."""
+    out: list = []
+    seen: set = set()
+
+    def elements(scope: ast.AST, x: ast.AST, d: int) -> None:
+        if isinstance(x, (ast.List, ast.Tuple)):
+            for el in x.elts:
+                visit(scope, el.value if isinstance(el, ast.Starred) else el, d)
+        elif isinstance(x, ast.Name):
+            for v in local_defs(scope, x.id):
+                elements(scope, v, d)
+            for n in own_nodes(scope):
+                if isinstance(n, ast.Call) and isinstance(n.func, ast.Attribute) and isinstance(n.func.value, ast.Name) and n.func.value.id == x.id:
+                    if n.func.attr in ("append", "insert") and n.args:
+                        visit(scope, n.args[-1], d)
+                    elif n.func.attr == "extend" and n.args:
+                        elements(scope, n.args[0], d)
+        elif isinstance(x, ast.BinOp) and isinstance(x.op, ast.Add):
+            elements(scope, x.left, d)
+            elements(scope, x.right, d)
+        elif isinstance(x, (ast.GeneratorExp, ast.ListComp)):
+            visit(scope, x.elt, d)
+        else:
+            visit(scope, x, d)
+
+    def visit(scope: ast.AST, x: ast.AST, d: int) -> None:
+        if (id(scope), id(x)) in seen:
+            return
+        seen.add((id(scope), id(x)))
+        if isinstance(x, ast.BinOp) and isinstance(x.op, ast.Add):
+            visit(scope, x.left, d)
+            visit(scope, x.right, d)
+        elif isinstance(x, ast.IfExp):
+            visit(scope, x.body, d)
+            visit(scope, x.orelse, d)
+        elif isinstance(x, ast.BoolOp):
+            for v in x.values:
+                visit(scope, v, d)
+        elif isinstance(x, ast.JoinedStr):
+            for v in x.values:
+                if isinstance(v, ast.FormattedValue):
+                    visit(scope, v.value, d)
+        elif isinstance(x, ast.Name):
+            out.append(x)
+            key = ("name", id(scope), x.id)
+            if key not in seen:
+                seen.add(key)
+                for v in local_defs(scope, x.id):
+                    # a tuple unpacking binds the name to a part of the value: the value is taken apart, not passed on
+                    if not any(isinstance(st, ast.Assign) and st.value is v and any(isinstance(t, (ast.Tuple, ast.List)) for t in st.targets) for st in own_nodes(scope)):
+                        visit(scope, v, d)
+        elif isinstance(x, ast.Call) and isinstance(x.func, ast.Attribute) and x.func.attr == "join" and isinstance(x.func.value, ast.Constant) and len(x.args) == 1:
+            elements(scope, x.args[0], d)
+        elif isinstance(x, ast.Call) and isinstance(x.func, ast.Name) and x.func.id in ("str", "cast") and x.args:
+            visit(scope, x.args[-1], d)
+        elif isinstance(x, ast.Call):
+            callee = module_callee(mod, x)
+            is_ctor = isinstance(x.func, ast.Name) and isinstance(mod.defs.get(x.func.id), ast.ClassDef)
+            if (callee is None and not is_ctor) or d <= 0:
+                out.append(x)
+                return
+            if isinstance(x.func, ast.Attribute):
+                visit(scope, x.func.value, d)
+            for a in list(x.args) + [k.value for k in x.keywords]:
+                visit(scope, a.value if isinstance(a, ast.Starred) else a, d)
+            if callee is not None and callee is not scope:
+                for r in own_nodes(callee):
+                    if isinstance(r, ast.Return) and r.value is not None:
+                        visit(callee, r.value, d - 1)
+        else:
+            out.append(x)
+
+    visit(fn, e, depth)
+    return out
